@@ -72,6 +72,24 @@ def instances(tier, seed):
                 add(spec=s, cfg=Cfg(method, N=N, M=M, intg=intg or 'rk', grid=g, degree=degree, scheme=scheme), free=free,
                     cT=cs[n % 3], ct0=cs[(n + 1) % 3], guess=Fr(7, 4))
                 n += 1
+    # seeded random problems (model, constraint set, objective): the relational comparison needs no reference semantics
+    from .. import randspec
+    rr = random.Random(seed * 7919 + 1111)
+    for ri in range(4 if tier == 'quick' else 80):
+        method, intg = rr.choice([('MS', 'rk'), ('SS', 'rk'), ('DC', None), ('MS', 'expl_euler'), ('DC', None)])
+        s = fam.random_dae(rr) if (method == 'DC' and rr.random() < 0.4) else (fam.random_diffeq(rr) if (method != 'DC' and rr.random() < 0.2) else fam.random_ode(rr))
+        N = rr.choice([1, 2, 3])
+        M = rr.choice([1, 2]) if method != 'SS' else 1
+        s.T = ('num', Fr(1))       # generated with a numeric horizon: T, t0, tf appear inside bodies, but no constraint is on the horizon alone
+        s.t0 = ('num', Fr(1, 2))   # (that would be a decision-free constraint in the fixed-time problem)
+        s.cons = randspec.random_constraints(rr, s, method, M)
+        s.objective = randspec.random_objective(rr, s, method)
+        g = rr.choice(grids)
+        if g == 'fun':
+            g = fam.G_FUN(N)
+        degree, scheme = rr.choice([(2, 'radau'), (1, 'legendre'), (1, 'radau')])
+        add(spec=s, cfg=Cfg(method, N=N, M=M, intg='rk' if s.nxt is not None else (intg or 'rk'), grid=g, degree=degree, scheme=scheme), free=rr.choice(frees),
+            cT=rr.choice(cs), ct0=rr.choice(cs + [Fr(-1, 2)]), guess=Fr(7, 4), soft=True, family='random')
     return items
 
 
@@ -125,8 +143,28 @@ def run(item):
         only_h = [(k, t_) for k, t_, r in A0.atoms('z') if ch._vars(t_) and ch._vars(t_) <= hnames]
         want = 1 if 'T' in free else 0
         grid_free = cfg.grid[0] == 'free' or cfg.grid[1].get('localize_T') or cfg.grid[1].get('localize_t0')
-        if not grid_free and len(only_h) != want:
-            V('horizon-rows', 'rows on horizon only', 'expected %d row(s) mentioning only the horizon variables (T>=0), found %d: %s' % (want, len(only_h), only_h[:3]))
+        if not grid_free and item.get('family') != 'random':       # (random models may have states that are functions of T alone)
+            # every row that mentions the horizon alone must BE the condition T >= 0 (grid classes with a minimal interval length add
+            # positive multiples of it: same feasible set); decided by the solver in both directions
+            extra_h = []
+            for k, t_ in only_h:
+                if 'T' not in free:
+                    extra_h.append((k, t_))
+                    continue
+                Tv_ = A0.xv[hv['T']]
+                same = k == 'le'
+                for hyp in ((Tv_ >= 0, emb(t_) > 0), (emb(t_) <= 0, Tv_ < 0)):
+                    if not same:
+                        break
+                    ch.s.push()
+                    ch.s.add(*hyp)
+                    same = str(ch.s.check()) == 'unsat'
+                    ch.s.pop()
+                    ch.stats['queries'] += 1
+                if not same:
+                    extra_h.append((k, t_))
+            if extra_h or len(only_h) < want:
+                V('horizon-rows', 'rows on horizon only', 'rows mentioning only the horizon variables must be equivalent to T>=0 (%d expected at least); found %d, not equivalent: %s' % (want, len(only_h), extra_h[:3]))
         if 'T' in free:
             Tv = A0.xv[hv['T']]
             ok = any(k == 'le' and str(ch.neq(t_, 0 - Tv)[0]) == 'unsat' for k, t_ in only_h) if only_h else False
